@@ -10,7 +10,7 @@ CFG = dict(
           "flight: everything enqueued - below the buffer everything accepted - has been handed to the connection), "
           "C16_wire (nothing dropped for destination i => for every source j the envelopes of j among what i is handed are exactly, in order and "
           "once each, the envelopes accepted from j for i with the route applied: a reliable ordered wire that only rewrites routing fields), "
-          "C16_dial_once, C16_redial, C16_return_route (the reply a server builds from the request's route record is routed back to the hop "
+          "C16_dial_once, C16_redial, C16_return_route (the reply a server builds from the request's route record - reply_of, tied to the real Server by the rig - is routed back to the hop "
           "the request came from / the origin). The unconditional clause (a relayed stream is never reported complete with messages missing) "
           "is refuted: C16_complete_means_complete_refuted, finding proxy-overflow>buf (D-16). The end-to-end clause (RPCs through the proxy "
           "complete as on a direct connection) follows informally from C16_wire + the client/server properties and is checked on the real "
@@ -33,6 +33,7 @@ CFG = dict(
                  "5": "dial: newConnection was called for a name that had a live record (or twice), or an accepted envelope for a name without record did not make the proxy dial",
                  "6": "end-to-end: an RPC through the real Proxy ended differently from the same RPC on a direct connection",
                  "7": "attach race: after AddClient(X) had returned (racing with the routing of the first envelope addressed to X) an envelope accepted for X was not handed to X's attached connection, or X was dialled again",
+                 "10": "tie of the transcription: the return route / source / destination of a reply of the real Server differs from reply_of (Model/Proxy.v), on which C16_return_route rests",
                  "8": "(model against model; no change of /repo can produce it: it guards the check itself) re-check of the exploration reduction: the reduced exploration of the model (Check/C16c.v) and the full one reach different sets of quiescent states at some step",
                  "9": "re-check of the exploration reduction: the full exploration ran out of fuel (not compared)"},
     rule="lock-step in synctest bubbles on the real goat.Proxy with scripted peer transports (one group of actions, synctest.Wait, snapshot: "
@@ -51,7 +52,10 @@ CFG = dict(
          "burst), with every failed conn.Write call observed and compared with the model and a tick of virtual time at every step (at most "
          "once counts the hand-overs whose Write failed); every envelope shape: all 288 combinations of body (token / none / empty / 64 KiB), status (none / code / code+message+details), trailer "
          "(none / empty / metadata), reset (none / RST_STREAM / empty type / other type), request headers, on attached, return-route and "
-         "dial-on-demand paths, compared whole (proto.Equal) modulo destination, route record and return route; end-to-end resets: a stream "
+         "dial-on-demand paths, compared whole (proto.Equal) modulo destination, route record and return route; the server's reply rule: the real Server answering requests whose route record has 0..4 hops (unary reply, error reply for undecodable "
+         "metadata, RST_STREAM for an unknown-stream body and for a stream start with undecodable metadata; serialising and by-reference "
+         "transport) compared with reply_of of Model/Proxy.v; unary calls of a raw peer with 1..3 crafted hops in the route record through "
+         "the real Proxy to the real Server and back; end-to-end resets: a stream "
          "cancelled by the caller cancels the handler, a body for an unknown stream and undecodable metadata are answered by RST_STREAM, through "
          "the proxy as on a direct connection; attach race: AddClient(X) at the moment the first envelope for X is being routed - placed deterministically from a zerolog hook "
          "inside the forwarding loop (40 rounds x GOMAXPROCS 1/4/16; thorough 400) and, as a PROBABILISTIC search, by free-running goroutines "
